@@ -8,6 +8,9 @@ CONSTANTS
   NOffer = 1
   NTake = 2
   Kinds = {"poll", "ttake"}
+  WithWaiters = FALSE
+  OneShot = FALSE
+  LoaderFreeOnly = FALSE
   WithClose = FALSE
   GuardedClose = TRUE
 VIEW View
